@@ -22,15 +22,44 @@ var gorRe = regexp.MustCompile(`goroutine \d+`)
 
 var traceRe = regexp.MustCompile(`(?s) stack trace:\n.*?\n\n\n?`)
 
-// norm strips pointer values and goroutine ids.  The library appends the Go stack trace of a
-// recovered panic to the error text: that block (frames of the host program, raw argument
-// words) is removed as a whole.
-func norm(s string) string {
+// Heap addresses are stripped ONLY in the contexts where the code as it is prints them on
+// purpose (explicit pointer printing).  An address anywhere else -- e.g. a new error message
+// that dumps a value with %v -- stays in the observable and makes two runs differ.
+//   value / stdout:
+//     (*pkg.Type)(0x..)            Go-syntax dump of a struct (togo returns fmt %#v of the shadow struct)
+//     global (0x..) | scope Name: 'x' (0x..) | <label>  <name> (0x..)   Scope.Show prints %p of every scope
+//     already-saw Stack 0x.. in Show | already-saw Scope 0x..            Stack.Show / Scope.Show cycle marker
+//     top of NewClosing at 0x..
+//   error text:
+//     (*zygo.HashFieldDet)(0x..)   the unknown-field panic of SexpToGoStructs dumps JsonTagMap with %#v
+var ptrContextsVO = []*regexp.Regexp{
+	regexp.MustCompile(`(\(\*[A-Za-z0-9_.]+\)\()0x[0-9a-fA-F]{7,}(\))`),
+	regexp.MustCompile(`((?:global|scope Name: '[^'\n]*'|elem \d+ of [^\n]*?) \()0x[0-9a-fA-F]{7,}(\))`),
+	regexp.MustCompile(`(already-saw (?:Stack|Scope) )0x[0-9a-fA-F]{7,}()`),
+	regexp.MustCompile(`(top of NewClosing at )0x[0-9a-fA-F]{7,}()`),
+}
+var ptrContextsE = []*regexp.Regexp{
+	regexp.MustCompile(`(\(\*zygo\.HashFieldDet\)\()0x[0-9a-fA-F]{7,}(\))`),
+}
+
+// norm strips goroutine ids and the allow-listed heap addresses.  The library appends the Go
+// stack trace of a recovered panic to the error text: that block (frames of the host program,
+// raw argument words) is removed as a whole.  field: 'v' value, 'o' stdout, 'e' error text.
+func norm(s string, field byte) string {
 	s = traceRe.ReplaceAllString(s, " [go stack trace]\n")
 	if i := strings.Index(s, "stack trace:"); i >= 0 {
 		s = s[:i] + "[go stack trace]"
 	}
-	s = ptrRe.ReplaceAllString(s, "0xPTR")
+	ctx := ptrContextsVO
+	if field == 'e' {
+		ctx = ptrContextsE
+	}
+	if os.Getenv("C20_STRIP_ALL_POINTERS") != "" {
+		s = ptrRe.ReplaceAllString(s, "0xPTR")
+	}
+	for _, re := range ctx {
+		s = re.ReplaceAllString(s, "${1}0xPTR${2}")
+	}
 	s = gorRe.ReplaceAllString(s, "goroutine N")
 	if len(s) > 6000 {
 		s = s[:6000] + "...[cut]"
@@ -123,7 +152,7 @@ func evalCaptured2(src string) (Obs, string, string, []string) {
 	w.Close()
 	<-done
 	r.Close()
-	o := Obs{O: norm(buf.String())}
+	o := Obs{O: norm(buf.String(), 'o')}
 	switch res.Class {
 	case lib.OutValue:
 		if res.Val == nil {
@@ -132,16 +161,16 @@ func evalCaptured2(src string) (Obs, string, string, []string) {
 			func() {
 				defer func() {
 					if p := recover(); p != nil {
-						o.V = norm(fmt.Sprintf("<panic while printing: %v>", p))
+						o.V = norm(fmt.Sprintf("<panic while printing: %v>", p), 'v')
 					}
 				}()
-				o.V = norm(res.Val.SexpString(nil))
+				o.V = norm(res.Val.SexpString(nil), 'v')
 			}()
 		}
 	case lib.OutError:
-		o.E = norm(res.Err.Error())
+		o.E = norm(res.Err.Error(), 'e')
 	case lib.OutPanic:
-		o.E = norm(fmt.Sprintf("PANIC: %v", res.Panic))
+		o.E = norm(fmt.Sprintf("PANIC: %v", res.Panic), 'e')
 	case lib.OutBudget:
 		o.E = "BUDGET"
 	}
